@@ -7,6 +7,9 @@ use nodejs_semver::{Identifier, Range, Version};
 /// the crate may panic on a generated text (that is what C06 looks for): generator-side calls go
 /// through these wrappers so that the harness survives and the panic is reported by the op itself
 pub fn try_range(t: &str) -> Result<Range, ()> {
+    if t == crate::ANY {
+        return std::panic::catch_unwind(Range::any).map_err(|_| ());
+    }
     match std::panic::catch_unwind(|| Range::parse(t)) {
         Ok(Ok(r)) => Ok(r),
         _ => Err(()),
@@ -900,6 +903,22 @@ pub fn run_stream(name: &str, thorough: bool, rng: &mut Rng, o: &mut Out) {
                 for (tb, b) in &base {
                     o.setops(ta, a, tb, b);
                 }
+            }
+        }
+        "any_ops" => {
+            // `Range::any()` (the one public constructor besides parse) against every single interval
+            // of the small chain and random unions, in both operand positions
+            let any = try_range(crate::ANY).unwrap();
+            let base = parsed(intervals(&chain_small()));
+            for (t, r) in &base {
+                o.setops(crate::ANY, &any, t, r);
+                o.setops(t, r, crate::ANY, &any);
+            }
+            let big = parsed(intervals(&chain_big()));
+            for _ in 0..300 * scale {
+                let (t, r) = gen_multi(rng, &big);
+                o.setops(crate::ANY, &any, &t, &r);
+                o.setops(&t, &r, crate::ANY, &any);
             }
         }
         "setops_big" => {
